@@ -64,7 +64,8 @@ AXES = {
     "span_layout": LAYOUTS,
     # True: captions 1 and 2 share their times (one run); "aba": captions 1 and 3 do, caption 2 lies between (three runs)
     # "near": captions 1 and 2 differ by less than a millisecond at both ends (not identical: separate runs)
-    "concurrent": [False, True, "aba", "near"],
+    # "same-start" / "same-end": captions 1 and 2 share only one of their two times (separate runs)
+    "concurrent": [False, True, "aba", "near", "same-start", "same-end"],
     # the first caption starts at time zero (its run, if any, too)
     "from_zero": [False, True],
 }
@@ -135,7 +136,7 @@ def build(cfg):
             style = {cfg["cap_style_key"]: cfg["cap_style_val"]}
         z = 1000000 if cfg.get("from_zero") else 0  # shift of the first span down to zero
         cl.append(Caption(1000000 - z, 2000000 - z, nodes, style=style, layout_info=mk_layout(cfg["cap_layout"])))
-        t2 = (1000000 - z, 2000000 - z) if cfg["concurrent"] is True else ((1000400 - z, 2000300 - z) if cfg["concurrent"] == "near" else (3000000, 4000000))
+        t2 = {True: (1000000 - z, 2000000 - z), "near": (1000400 - z, 2000300 - z), "same-start": (1000000 - z, 2500000), "same-end": (1500000 - z, 2000000 - z)}.get(cfg["concurrent"], (3000000, 4000000))
         cl.append(Caption(t2[0], t2[1], [CaptionNode.create_text("second " + lang[:2])], layout_info=mk_layout(cfg["other_lang_layout"]) if li else (mk_layout(LAYOUTS[1]) if own else None)))
         t3 = (1000000 - z, 2000000 - z) if cfg["concurrent"] == "aba" else (5000000, 6000000)
         cl.append(Caption(t3[0], t3[1], [CaptionNode.create_text("third")], layout_info=mk_layout(LAYOUTS[3]) if own and not li else None))
